@@ -75,6 +75,46 @@ CLAIMED["C22"] = ("Proof of the comparison performed by gnmidiff.DiffSetRequest 
     "assumed reflexive and symmetric. Not covered: that requests with the same intent (JSON vs leaf updates, prefix splits, reordering) normalise to equal "
     "intents - minimalSetRequestIntent, flattenOCJSON and the path-string functions are outside this check.", "5 (C22)", "")
 
+GENNOTE = ("The verified text is the output of the working tree's generator, produced on every run (go build ./generator, run on the schema corpus: "
+    "/verif/schemas/vlists.yang with every supported key type, and the repository's ctestschema (compressed) and utestschema (uncompressed) test schemas) "
+    "and loaded through a file overlay; the contracts are templates in /repo/gogen/zz_contracts_verif.go instantiated once per generated list, with the key "
+    "leaves of each list taken from the YANG source (goyang), not from the helpers under proof. The quantifier over schemas is sampled by the corpus; the "
+    "quantifiers over key values, map contents and operation pre-states (every state satisfying the representation invariant, hence every history of calls) "
+    "are closed by proof. decimal64-keyed lists are skipped (Go map semantics for NaN / signed zero are not modelled).")
+
+CLAIMED["C15"] = ("Proof on generated instances that every generated ordered map is an insertion-ordered unique-key map: with the representation invariant wf "
+    "(keys pairwise distinct, dom(valueMap) == set(keys), no nil element) assumed before a call, each of init, Len, Get, Keys, Values, Delete, Append, AppendNew and "
+    "the parent's GetOrCreate<List>Map / AppendNew<List> / Append<List> / Get<List> / Delete<List> is proved to re-establish wf and to have exactly the stated effect on the "
+    "whole abstract view (key sequence and key->element map): Append/AppendNew reject a nil receiver, nil element, nil key leaf or duplicate key without changing "
+    "the view and otherwise append the key at the end; Delete removes the key keeping the relative order of the others (the trailing `return false` is proved "
+    "unreachable); Get is the map lookup; Keys and Values return freshly allocated slices equal to the key sequence resp. the elements in key order (so "
+    "modifying them cannot change the map). Since wf is an inductive invariant of all mutators, the statement holds after every sequence of calls. "
+    "Not covered: order preservation through JSON, gNMI and DeepCopy (reflection walkers, yreflect).", "5 (C15)", GENNOTE)
+
+CLAIMED["C34"] = ("Proof on generated instances that the keyed-list helpers behave as a map from key tuples to entries: with the invariant wf (no nil entry, every "
+    "entry's key leaves equal its map key) assumed before a call, New<List>, Append<List>, GetOrCreate<List>, GetOrCreate<List>Map, Get<List>, Delete<List>, "
+    "Rename<List> and the entry's ΛListKeyMap are proved to re-establish wf and to change the map exactly as stated: New and Append reject a duplicate key "
+    "(Append also a nil pointer-typed key leaf) without changing the map; GetOrCreate returns the existing entry unchanged or creates one whose key leaves are "
+    "the arguments, never reaching its panic; Get never creates or changes anything; Delete removes exactly the key; Rename fails without change when the new "
+    "key exists or the old one does not, and otherwise moves the entry and updates its key leaves; ΛListKeyMap returns exactly the key leaves under their YANG "
+    "names. Known finding (recorded, not repaired): Append accepts an unset enumeration / identityref / union key.", "5 (C34)",
+    GENNOTE + " Known finding: see KNOWN_FINDINGS.txt (Append with an unset non-scalar key).")
+
+CLAIMED["C16"] = ("Proof of the key string encode/decode pairing for non-enumeration keys under a mini-model of reflect (a Value is the interface value it wraps; Kind, "
+    "Size, Implements are functions of the dynamic type id) and assumed strconv/fmt laws (itoa injective with atoi(itoa(x)) == x; ParseInt/ParseUint accept "
+    "itoa(x) exactly when x fits the bit size): ygot.KeyValueAsString succeeds for every value of every signed and unsigned integer kind (int64 included) with "
+    "the decimal rendering itoa(value), returns a string value unchanged, booleans as true/false and float64 as a string that parses back to the same float; "
+    "ytypes.StringToType parses at the bit size of the target Go type, succeeds exactly when strconv does, and returns a value of the requested type holding "
+    "atoi(s), the string itself, or the boolean. Not covered: enumeration, identityref and union keys (enumFieldToString / castToEnumValue / unionPtrValue are "
+    "uninterpreted), key comparison in retrieveNodeList, entry creation in SetNode (reflection walkers).", "5 (C16)", "")
+
+CLAIMED["C19"] = ("Proof of the RFC 7951 scalar rule in ygot.writeIETFScalarJSON for every dynamic type: values of kind int64 / uint64 are returned as the decimal string "
+    "itoa(value); float64 (decimal64 leaves) as a string in the RFC 7950 decimal lexical form - no exponent - that parses back to the same float64 (assumed "
+    "law of strconv.FormatFloat(f, 'f', -1, 64); fmt's %v has no such law, which is how the exponent defect was found); every other value is returned "
+    "unchanged, so 8/16/32-bit integers and booleans stay JSON numbers / booleans. Not covered: which kind reaches this function (jsonValue / structJSON dispatch "
+    "- reflection walkers), base64 of binary, [null] for empty, enumeration names (C17), module-name prefixes (prependmodsJSON), encoding/json itself.",
+    "5 (C19)", "")
+
 NA = {
     "C01": "RFC7951 JSON round-trip is a relation between two reflection walkers (structJSON/jsonValue vs unmarshalStruct/unmarshalList) over arbitrary generated struct types; no function-level contract within this verifier's reach carries it (no reflect memory model). Scalar kernels are decided under C18/C19 where claimed.",
     "C02": "gNMI notification round-trip lives in the reflection walkers (findUpdatedLeaves, retrieveNode); not expressible as contracts the VC generator can check.",
